@@ -2,6 +2,7 @@ package grpd
 
 import (
 	"fmt"
+	"runtime/debug"
 	"sort"
 	"strings"
 
@@ -584,6 +585,7 @@ func init() {
 			"sinks and forwarders drain everything they can whenever they run",
 		},
 		Run: func(c *lib.Ctx) {
+			debug.SetGCPercent(1600) // tiny live heap, millions of short cases: fewer GC cycles
 			lib.Cases(c, func(yield func(c09Case) bool) { enumC09(c09BoundsFor(c), yield) }, runC09)
 		},
 		Replay: lib.ReplayCases(runC09),
